@@ -13,7 +13,7 @@ func OpenMath(L *LState) int {
 	mod.RawSetString("random", L.NewClosure(mathRandom, rng))
 	mod.RawSetString("randomseed", L.NewClosure(mathRandomseed, rng))
 	mod.RawSetString("pi", LNumber(math.Pi))
-	mod.RawSetString("huge", LNumber(math.MaxFloat64))
+	mod.RawSetString("huge", LNumber(math.Inf(1)))
 	L.Push(mod)
 	return 1
 }
